@@ -39,8 +39,9 @@ W == JsonDeserialize(WorldFile)
 INSTANCE Den WITH FloatTab <- W.floattab, RegexTab <- W.regextab
 
 VARIABLES job,    \* [e, c, d]: which expression / configuration / document is being evaluated (0s before the choice)
-          ctl, env, ret, log      \* log: the history of (node kind, event) pairs, for the order properties
-vars == <<job, ctl, env, ret, log>>
+          ctl, env, ret, log,     \* log: the history of (node kind, event) pairs, for the order properties
+          hlog                    \* the resolve events so far: what a value transformation hook has been handed, in call order
+vars == <<job, ctl, env, ret, log, hlog>>
 
 Cfg == W.cfgs[job.c]
 Doc == W.docs[job.d].av
@@ -49,12 +50,12 @@ TopF == ctl[Len(ctl)]
 Pop == SubSeq(ctl, 1, Len(ctl) - 1)
 SetTop(f) == Append(Pop, f)
 
-Init == job = [e |-> 0, c |-> 0, d |-> 0] /\ ctl = <<>> /\ env = <<>> /\ ret = "-" /\ log = <<>>
+Init == job = [e |-> 0, c |-> 0, d |-> 0] /\ ctl = <<>> /\ env = <<>> /\ ret = "-" /\ log = <<>> /\ hlog = <<>>
 
 Choose(e, c, d) ==
   /\ job.e = 0
   /\ job' = [e |-> e, c |-> c, d |-> d]
-  /\ ctl' = <<Frame(W.exprs[e])>> /\ UNCHANGED <<env, ret, log>>
+  /\ ctl' = <<Frame(W.exprs[e])>> /\ UNCHANGED <<env, ret, log, hlog>>
 
 Running == job.e # 0 /\ ctl # <<>>
 
@@ -63,18 +64,19 @@ Enter ==
   /\ Running /\ TopF.ph = "enter" /\ TopF.node.t \in {"not", "and", "or"}
   /\ LET child == IF TopF.node.t = "not" THEN TopF.node.e ELSE TopF.node.l IN
      ctl' = Append(SetTop([TopF EXCEPT !.ph = "left"]), Frame(child))
-  /\ ret' = "-" /\ UNCHANGED <<job, env, log>>
+  /\ ret' = "-" /\ UNCHANGED <<job, env, log, hlog>>
 
 MatchStep ==
   /\ Running /\ TopF.ph = "enter" /\ TopF.node.t = "match"
   /\ LET r == Resolve(Doc, TopF.node.sel.path, env, Cfg) IN
      ret' = IF r.r = "unm" THEN "?" ELSE IF r.r = "err" THEN "E" ELSE IF r.r = "absent" THEN AbsentTab(TopF.node.op)
             ELSE MatchOp(TopF.node.op, r.v, TopF.node.val)
+  /\ hlog' = hlog \o ResolveTr(Doc, TopF.node.sel.path, env, Cfg)
   /\ ctl' = Pop /\ UNCHANGED <<job, env, log>>
 
 NotDone ==
   /\ Running /\ TopF.ph = "left" /\ TopF.node.t = "not" /\ ret # "-"
-  /\ ret' = Neg3(ret) /\ ctl' = Pop /\ UNCHANGED <<job, env, log>>
+  /\ ret' = Neg3(ret) /\ ctl' = Pop /\ UNCHANGED <<job, env, log, hlog>>
 
 LeftDone ==
   /\ Running /\ TopF.ph = "left" /\ TopF.node.t \in {"and", "or"} /\ ret # "-"
@@ -83,11 +85,11 @@ LeftDone ==
      THEN /\ ctl' = Append(SetTop([TopF EXCEPT !.ph = "right"]), Frame(TopF.node.r))
           /\ ret' = "-" /\ log' = Append(log, [ev |-> "right", op |-> TopF.node.t, left |-> ret])
      ELSE /\ ctl' = Pop /\ UNCHANGED <<ret, log>>          \* short circuit: the left result (false / true / error) is the result
-  /\ UNCHANGED <<job, env>>
+  /\ UNCHANGED <<job, env, hlog>>
 
 RightDone ==
   /\ Running /\ TopF.ph = "right" /\ ret # "-"
-  /\ ctl' = Pop /\ UNCHANGED <<job, env, ret, log>>
+  /\ ctl' = Pop /\ UNCHANGED <<job, env, ret, log, hlog>>
 
 CollResolve ==
   /\ Running /\ TopF.ph = "enter" /\ TopF.node.t = "coll"
@@ -102,6 +104,7 @@ CollResolve ==
         ELSE IF Len(r.v.v) = 0 THEN fin(B(e.op = "all"))
         ELSE IF e.mode = "both" /\ e.n1 = e.n2 THEN fin("E")
         ELSE /\ ctl' = SetTop([TopF EXCEPT !.ph = "iter", !.i = 1, !.coll = r.v]) /\ ret' = "-"
+  /\ hlog' = hlog \o ResolveTr(Doc, TopF.node.sel.path, env, Cfg)
   /\ UNCHANGED <<job, env, log>>
 
 IterBind ==
@@ -111,7 +114,7 @@ IterBind ==
      IN /\ env' = env \o b
         /\ ctl' = Append(SetTop([TopF EXCEPT !.ph = "body", !.nb = Len(b)]), Frame(e.e))
         /\ log' = Append(log, [ev |-> "visit", op |-> e.op, left |-> ToString(TopF.i)])
-  /\ UNCHANGED <<job, ret>>
+  /\ UNCHANGED <<job, ret, hlog>>
 
 IterDone ==
   /\ Running /\ TopF.ph = "body" /\ ret # "-"
@@ -121,13 +124,16 @@ IterDone ==
      IN IF stop THEN ctl' = Pop /\ UNCHANGED ret
         ELSE IF TopF.i = Len(TopF.coll.v) THEN ctl' = Pop /\ ret' = B(e.op = "all")
         ELSE ctl' = SetTop([TopF EXCEPT !.ph = "iter", !.i = @ + 1, !.nb = 0]) /\ ret' = "-"
-  /\ UNCHANGED <<job, log>>
+  /\ UNCHANGED <<job, log, hlog>>
 
 Done == job.e # 0 /\ ctl = <<>>
+\* a finished run is printed as one trace record: the result and the resolve events in order; the harness evaluates the same
+\* expression on the real evaluator with a recording hook and compares both (W.emit)
+Report == W.emit => PrintT("CASE " \o ToJson([e |-> job.e, c |-> job.c, d |-> job.d, ret |-> ret, hlog |-> hlog]))
 Next ==
   \/ \E e \in 1..Len(W.exprs) : \E c \in 1..Len(W.cfgs) : \E d \in 1..Len(W.docs) : Choose(e, c, d)
   \/ Enter \/ MatchStep \/ NotDone \/ LeftDone \/ RightDone \/ CollResolve \/ IterBind \/ IterDone
-  \/ (Done /\ UNCHANGED vars)
+  \/ (Done /\ Report /\ UNCHANGED vars)
 Spec == Init /\ [][Next]_vars
 
 ---------------------------------------------------------------------------
